@@ -2,7 +2,7 @@
 //   S vec <isz> <mask> <ops...>     a<x> p<x> i<idx>:<x> g<n> t<n> r<n> f<n> w<n> c o
 //   S hash <mask> <ops...>          i<key> d<key>
 //   S pool <mask> <ops...>          c<hex bytes>
-//   S holder <mask> <ops...>        L R F<li> E<li> D B<li>
+//   S holder <mask> <ops...>        L R F<li> E<li> D B<li> S<order> A<addr> C<addr>
 // mask: none | one:k | from:k | set:a,b,...   (indices of the arena requests (H1 kinds 0 and 3) made by the script)
 // Answer: "S <kind>" + one token per op (result/state digest) + " | final state dump" + " req=<number of arena requests>".
 #ifndef C15_SCRIPT_H
@@ -225,12 +225,22 @@ static void script_holder(const std::vector<std::string>& t) {
       case 'E': r = (li < labels.size()) ? err_code(a.embed_label(labels[li])) : 2; break;
       case 'D': r = labels.empty() ? 2 : err_code(a.embed_label_delta(labels[0], labels[0], 4)); break;
       case 'B': r = (li < labels.size()) ? err_code(a.bind(labels[li])) : 2; break;
+      case 'S': {
+        Section* sec = nullptr;
+        char nm[24];
+        snprintf(nm, sizeof(nm), ".s%zu", i);
+        r = err_code(code.new_section(Out(sec), nm, SIZE_MAX, SectionFlags::kNone, 1, int32_t(strtol(s + 1, nullptr, 10))));
+        break;
+      }
+      case 'A': r = err_code(code.add_address_to_address_table(strtoull(s + 1, nullptr, 10))); break;
+      case 'C': r = err_code(a.call(imm(uint64_t(strtoull(s + 1, nullptr, 10))))); break;
       default: r = 2; break;
     }
     F.armed = false;
-    char buf[96];
-    snprintf(buf, sizeof(buf), " %d/%zu/%zu/%zu/%zu", r, size_t(code.label_count()), code.reloc_entries().size(), code.unresolved_fixup_count(),
-             code._fixup_data_pool.pooled_item_count());
+    char buf[128];
+    Section* at = code.address_table_section();
+    snprintf(buf, sizeof(buf), " %d/%zu/%zu/%zu/%zu/%zu/%zu", r, size_t(code.label_count()), code.reloc_entries().size(), code.unresolved_fixup_count(),
+             code._fixup_data_pool.pooled_item_count(), size_t(code.section_count()), at ? size_t(at->virtual_size() / 8) : size_t(0));
     out += buf;
   }
   long req = F.n_arena;
@@ -247,6 +257,59 @@ static void script_holder(const std::vector<std::string>& t) {
   if (code.reloc_entries().is_empty()) out += " -";
   bool firstr = true;
   for (const RelocEntry* re : code.reloc_entries()) { out += (firstr ? " " : ","); firstr = false; out += std::to_string(uint32_t(re->reloc_type())); }
+  out += " |";
+  for (size_t i = 0; i < code.sections().size(); i++) out += (i ? "," : " ") + std::to_string(code.sections()[i]->order());
+  out += " |";
+  for (size_t i = 0; i < code.sections_by_order().size(); i++) out += (i ? "," : " ") + std::to_string(code.sections_by_order()[i]->section_id());
+  out += " | " + (code.address_table_section() ? std::to_string(code.address_table_section()->section_id()) : std::string("-"));
+  out += " req=" + std::to_string(req);
+  printf("%s\n", out.c_str());
+}
+
+// S builder <mask> <ops...>   n (new_label) b<li> (bind) s<sid> (section) i (nop) S<order> (CodeHolder::new_section)
+static void script_builder(const std::vector<std::string>& t) {
+  CodeHolder code;
+  x86::Builder b;
+  if (code.init(Environment(Arch::kX64)) != Error::kOk || code.attach(&b) != Error::kOk) { printf("BAD builder setup\n"); return; }
+  std::string out = "S builder";
+  if (!arm_mask(t[2])) { printf("BAD mask\n"); return; }
+  for (size_t i = 3; i < t.size(); i++) {
+    const char* s = t[i].c_str();
+    size_t arg = size_t(strtoul(s + 1, nullptr, 10));
+    int r = 0;
+    F.armed = true;
+    switch (s[0]) {
+      case 'n': { Label l = b.new_label(); r = l.is_valid() ? 0 : 1; break; }
+      case 'b': { Label l; l.set_id(uint32_t(arg)); r = err_code(b.bind(l)); break; }
+      case 's': r = arg < code.section_count() ? err_code(b.section(code.section_by_id(uint32_t(arg)))) : 2; break;
+      case 'i': r = err_code(b.nop()); break;
+      case 'S': {
+        Section* sec = nullptr;
+        char nm[24];
+        snprintf(nm, sizeof(nm), ".s%zu", i);
+        r = err_code(code.new_section(Out(sec), nm, SIZE_MAX, SectionFlags::kNone, 1, int32_t(strtol(s + 1, nullptr, 10))));
+        break;
+      }
+      default: r = 2; break;
+    }
+    F.armed = false;
+    char buf[96];
+    snprintf(buf, sizeof(buf), " %d/%zu/%zu/%zu/%zu", r, size_t(code.label_count()), size_t(b._label_nodes.size()), size_t(b._section_nodes.size()), size_t(code.section_count()));
+    out += buf;
+  }
+  long req = F.n_arena;
+  disarm();
+  out += " |";
+  for (BaseNode* n = b.first_node(); n; n = n->next()) {
+    if (n->type() == NodeType::kSection) out += " S" + std::to_string(n->as<SectionNode>()->section_id());
+    else if (n->type() == NodeType::kLabel) out += " L" + std::to_string(n->as<LabelNode>()->label_id());
+    else if (n->type() == NodeType::kInst) out += " I";
+    else out += " ?";
+  }
+  out += " | l";
+  for (size_t i = 0; i < b._label_nodes.size(); i++) out += b._label_nodes[i] ? "1" : "0";
+  out += " | s";
+  for (size_t i = 0; i < b._section_nodes.size(); i++) out += b._section_nodes[i] ? "1" : "0";
   out += " req=" + std::to_string(req);
   printf("%s\n", out.c_str());
 }
@@ -263,20 +326,29 @@ static void run_script(const std::vector<std::string>& t) {
   else if (t[1] == "hash") script_hash(t);
   else if (t[1] == "pool") script_pool(t);
   else if (t[1] == "holder") script_holder(t);
+  else if (t[1] == "builder") script_builder(t);
   else printf("BAD script kind\n");
 }
 
-// hash primes as the library has them: the table is file-static in arenahash.cpp, so it is observed through real tables
-// (cross-check of the python source parser that feeds coq/gen/C15Tables.v); `n` = number of leading entries to show
-static void dump_tables(size_t n) {
-  std::string out = "T primes";
-  for (uint32_t pi = 0; pi < n; pi++) {
-    Arena arena(1 << 16);
-    ArenaHashBase probe;
-    probe._rehash(arena, pi);
-    out += " " + std::to_string(probe._buckets_count) + ":" + std::to_string(probe._buckets_grow);
-    probe.release(arena);
-  }
+// The prime table is file-static in arenahash.cpp: that file is #included into this TU (c15_harness.cpp), so the COMPILED arrays
+// are dumped in full (cross-check of the python source parser that feeds coq/gen/C15Tables.v) and the REAL _calc_mod is evaluated
+// with each row installed ("M <row> <hash>..." -> "M <hash mod prime as _calc_mod computes it>...").
+static void dump_tables(size_t) {
+  std::string out = "T rows";
+  for (size_t i = 0; i < ASMJIT_ARRAY_SIZE(ArenaHash_prime_array); i++)
+    out += " " + std::to_string(ArenaHash_prime_array[i].prime) + ":" + std::to_string(ArenaHash_prime_array[i].rcp) + ":" + std::to_string(unsigned(ArenaHash_prime_shift[i]));
+  printf("%s\n", out.c_str());
+}
+
+static void calc_mod_cmd(const std::vector<std::string>& t) {
+  size_t row = size_t(strtoul(t[1].c_str(), nullptr, 10));
+  if (row >= ASMJIT_ARRAY_SIZE(ArenaHash_prime_array)) { printf("BAD row\n"); return; }
+  ArenaHashBase h;
+  h._buckets_count = ArenaHash_prime_array[row].prime;
+  h._rcp_value = ArenaHash_prime_array[row].rcp;
+  h._rcp_shift = ArenaHash_prime_shift[row];
+  std::string out = "M";
+  for (size_t i = 2; i < t.size(); i++) out += " " + std::to_string(h._calc_mod(uint32_t(strtoul(t[i].c_str(), nullptr, 10))));
   printf("%s\n", out.c_str());
 }
 
